@@ -18,7 +18,7 @@ type FaultSpec struct {
 	Kind   string `json:"kind"`   // api: race e410 e422 e500 timeout-before timeout-after; hook: h500 h429 refused garbage
 }
 
-var apiFaultKinds = []string{"race", "e410", "e422", "e500", "timeout-before", "timeout-after"}
+var apiFaultKinds = []string{"race", "e410", "e422", "e500", "timeout-before", "timeout-after", "e404"}
 var hookFaultKinds = []string{"h500", "h429", "refused", "garbage"}
 
 // c12Scenario builds one of the scenario shapes used for fault enumeration.
@@ -39,6 +39,17 @@ func c12Scenario(c *vs.Case, kind string, fixed bool) *Scn {
 		s.Cfg.Children = append(s.Cfg.Children, ChildCfg{Resource: "configmaps", Method: "InPlace"})
 		s.Prog.Children = append(s.Prog.Children, ChildTpl{Resource: "configmaps", Names: []string{"c0", "c1"}, Labels: map[string]string{"app": "p1"},
 			Fields: map[string]any{"data": map[string]any{"v": "$p:spec.template.v"}}})
+	}
+	if s.DeleteParent = c.Int(3); s.DeleteParent > 0 {
+		// the parent is being deleted: the faulted sync is a finalize sync
+		s.Cfg.FinalizeHook = true
+		s.Prog.FinalizeMode = 0
+		s.Prog.FinalizedMode = 0
+	}
+	if c.Bool() {
+		// a customize hook selects related objects; its calls can fail like any other hook call
+		s.Cfg.CustomizeHook = true
+		s.Prog.Related = []map[string]any{{"apiVersion": "v1", "resource": "configmaps", "labelSelector": map[string]any{"matchLabels": map[string]any{"rel": "yes"}}}}
 	}
 	if kind == "decorator" {
 		s.SelLabels = map[string]string{}
@@ -105,6 +116,8 @@ func canonicalStoreSkip(e *Env, skip map[string]bool) string {
 type c12Run struct {
 	Work      *SyncTrace
 	Final     string
+	Related   string // the related map of the last sync/finalize hook call
+	SawHook   bool
 	HookCalls int
 	Env       *Env
 }
@@ -135,6 +148,19 @@ func runC12(scn *Scn, f Factory, seedTrace []int, fault FaultSpec, extra []Fault
 	if scn.Cfg.Kind == "composite" && len(seedTrace) > 0 {
 		sc := vs.NewReplayCase(seedTrace)
 		SeedStore(sc, env, SeedOpts{Max: 3})
+	}
+	if scn.Cfg.CustomizeHook {
+		for _, n := range []string{"rel-a", "rel-b"} {
+			env.W.Sim.ExtCreate("configmaps", map[string]any{"apiVersion": "v1", "kind": "ConfigMap", "metadata": map[string]any{"name": n, "namespace": "ns1", "labels": map[string]any{"rel": "yes"}}, "data": map[string]any{"k": n}})
+		}
+	}
+	if scn.DeleteParent > 0 {
+		env.W.Sim.ExtDelete(scn.Cfg.ParentResource, scn.ParentNS(), scn.ParentName(), "")
+		for i := 1; i < scn.DeleteParent; i++ {
+			if t := env.SyncFresh(); t.Panic != "" {
+				return nil, env, vs.Violf("C12/panic", "panic during setup: %s", t.Panic)
+			}
+		}
 	}
 	run := &c12Run{}
 	hookCalls := 0
@@ -173,6 +199,8 @@ func runC12(scn *Scn, f Factory, seedTrace []int, fault FaultSpec, extra []Fault
 						}
 					}
 					return nil
+				case "e404":
+					return &vs.Fault{Code: 404, Reason: "NotFound", Message: "injected"}
 				case "e410":
 					return &vs.Fault{Code: 410, Reason: "Gone", Message: "injected"}
 				case "e422":
@@ -221,6 +249,21 @@ func runC12(scn *Scn, f Factory, seedTrace []int, fault FaultSpec, extra []Fault
 		}
 		env.W.Hooks.Handle(SyncURL, h)
 		env.W.Hooks.Handle(FinalizeURL, h)
+		if scn.Cfg.CustomizeHook {
+			env.W.Hooks.Handle(CustomizeURL, func(r *http.Request, body []byte) HookResponse {
+				idx := hookCalls
+				hookCalls++
+				for _, fa := range fs {
+					if fa.Target == "hook" && fa.Index == idx {
+						hookCalls--
+						return h(r, body) // same failure kinds
+					}
+				}
+				req, _ := vs.DecodeJSON(body)
+				b, _ := json.Marshal(orig.EvalCustomize(req))
+				return HookResponse{Code: 200, Body: b}
+			})
+		}
 	}
 	var fs []FaultSpec
 	if fault.Target != "none" {
@@ -236,6 +279,7 @@ func runC12(scn *Scn, f Factory, seedTrace []int, fault FaultSpec, extra []Fault
 	if run.Work.Panic != "" {
 		return run, env, vs.Violf("C12/panic", "panic in the faulted sync: %s", run.Work.Panic)
 	}
+	noteRelated(run, run.Work)
 	// recovery: fault-free syncs driven like the queue would (requeue / events)
 	n := len(scn.Prog.DesiredAll(env.W.Sim, env.Parent()))
 	for i := 0; i < 2*n+6; i++ {
@@ -244,10 +288,32 @@ func runC12(scn *Scn, f Factory, seedTrace []int, fault FaultSpec, extra []Fault
 		if t.Panic != "" {
 			return run, env, vs.Violf("C12/panic", "panic during recovery: %s", t.Panic)
 		}
+		noteRelated(run, t)
 	}
 	run.Final = canonicalStore(env)
 	run.Env = env
 	return run, env, nil
+}
+
+// noteRelated remembers which related objects the last sync/finalize hook call was shown.
+func noteRelated(run *c12Run, t *SyncTrace) {
+	for _, h := range t.Hooks {
+		if h.URL == CustomizeURL || h.Request == nil {
+			continue
+		}
+		var ids []string
+		groups, _ := h.Request["related"].(map[string]any)
+		for g, objs := range groups {
+			om, _ := objs.(map[string]any)
+			for k, o := range om {
+				obj, _ := o.(map[string]any)
+				ids = append(ids, fmt.Sprintf("%s/%s data=%s", g, k, canon(obj["data"])))
+			}
+		}
+		sort.Strings(ids)
+		run.Related = strings.Join(ids, " ")
+		run.SawHook = true
+	}
 }
 
 func queueOps(t *SyncTrace) (rateLimited, forgot bool, after time.Duration, hasAfter bool) {
@@ -366,7 +432,7 @@ func PropC12(c *vs.Case, f Factory, kind string, fixed bool) error {
 		default:
 			either = true
 		}
-	case fault.Kind == "e410":
+	case fault.Kind == "e410", fault.Kind == "e404":
 		either = true
 	default:
 		expectErr = true
@@ -427,6 +493,9 @@ func PropC12(c *vs.Case, f Factory, kind string, fixed bool) error {
 	if len(skip) > 0 {
 		got.Final = canonicalStoreSkip(env, skip)
 		base.Final = canonicalStoreSkip(baseEnv, skip)
+	}
+	if scn.Cfg.CustomizeHook && got.SawHook && base.SawHook && got.Related != base.Related && len(skip) == 0 {
+		return withTrace(vs.Violf("C12/related-differs-after-fault", "after fault %+v and the recovery syncs the hook is shown other related objects than in the fault-free run\nfault-free: %s\nfaulted:    %s", fault, clip(base.Related), clip(got.Related)), t)
 	}
 	if got.Final != base.Final {
 		return withTrace(vs.Violf("C12/no-convergence-after-fault", "after fault %+v (further faults %v) and the recovery syncs the cluster differs from the fault-free run\n%s", fault, extra, diffWindow(base.Final, got.Final)), t)
